@@ -115,6 +115,8 @@ package spdxexp
 
 //@ func (*tokenStream).parseExpression
 //@   requires okStream(t) && !isErr(t.err)
+//@   decreases len(t.tokens) - t.index, 3
+//@   ensures[C03] progress: old(t.index) <= t.index && (!isErr(t.err) && result != nil ==> old(t.index) < t.index)
 //@   requires[C06,C07] okToks(t.tokens)
 //@   modifies t.index, t.err
 //@   ensures[C03] okStream(t)
@@ -125,6 +127,8 @@ package spdxexp
 
 //@ func (*tokenStream).parseAnd
 //@   requires okStream(t) && !isErr(t.err)
+//@   decreases len(t.tokens) - t.index, 2
+//@   ensures[C03] progress: old(t.index) <= t.index && (!isErr(t.err) && result != nil ==> old(t.index) < t.index)
 //@   requires[C06,C07] okToks(t.tokens)
 //@   modifies t.index, t.err
 //@   ensures[C03] okStream(t)
@@ -135,6 +139,8 @@ package spdxexp
 
 //@ func (*tokenStream).parseAtom
 //@   requires okStream(t) && !isErr(t.err)
+//@   decreases len(t.tokens) - t.index, 1
+//@   ensures[C03] progress: old(t.index) <= t.index && (!isErr(t.err) && result != nil ==> old(t.index) < t.index)
 //@   requires[C06,C07] okToks(t.tokens)
 //@   modifies t.index, t.err
 //@   ensures[C03] okStream(t)
@@ -145,6 +151,8 @@ package spdxexp
 
 //@ func (*tokenStream).parseParenthesizedExpression
 //@   requires okStream(t) && !isErr(t.err)
+//@   decreases len(t.tokens) - t.index, 0
+//@   ensures[C03] progress: old(t.index) <= t.index && (!isErr(t.err) && result != nil ==> old(t.index) < t.index)
 //@   requires[C06,C07] okToks(t.tokens)
 //@   modifies t.index, t.err
 //@   ensures[C03] okStream(t)
@@ -252,6 +260,7 @@ package spdxexp
 //@   ensures[C06,C07] !isErr(result1) ==> okToks(result0)
 //@   loop 0:
 //@     invariant[C03] okExp(exp) && fresh(exp)
+//@     decreases len(exp.expression) - exp.index
 //@     invariant[C03] tokens == nil || fresh(tokens)
 //@     invariant[C05,C15] rel(exp, orig) && !isErr(exp.err)
 //@     invariant[C06,C07] okToks(tokens)
@@ -274,6 +283,7 @@ package spdxexp
 //@   requires[C05,C15] rel(exp, orig) && !isErr(exp.err)
 //@   modifies exp.index, exp.err, exp.expression, exp.removed
 //@   ensures[C03] okExp(exp)
+//@   ensures[C03] tokProgress: !isErr(exp.err) && result != nil ==> len(exp.expression) - exp.index < old(len(exp.expression) - exp.index)
 //@   ensures[C05,C15] !isErr(exp.err) ==> rel(exp, orig) && exp.index > old(exp.index) - 9
 //@   ensures[C06,C07] !isErr(exp.err) && result != nil ==> okTok(result)
 //@   ensures[C05,scoped,grp=lex] tokPend: old(pend(exp, orig)) && old(!spaceBefore(exp)) ==> !isErr(exp.err) && result != nil && result.role == 0 && result.value == "+" && syncd(exp, orig) && exp.index + exp.removed == old(exp.index + exp.removed) + 1
@@ -291,6 +301,7 @@ package spdxexp
 //@   ensures[C03] okExp(exp)
 //@   ensures[C03] result == nil && !isErr(exp.err) ==> exp.index == old(exp.index)
 //@   ensures[C03] !isErr(old(exp.err)) && result != nil ==> !isErr(exp.err)
+//@   ensures[C03] opProgress: result != nil ==> exp.index > old(exp.index)
 //@   ensures[C05,C15] result != nil ==> syncd(exp, orig) && exp.index >= old(exp.index)
 //@   ensures[C05,C15] result == nil && !isErr(exp.err) ==> syncd(exp, orig)
 //@   ensures[C05] result != nil ==> result.role == 0 && result.value != "" && result.value == firstOp(old(exp.expression[exp.index:])) && exp.index == old(exp.index) + len(result.value)
@@ -326,6 +337,7 @@ package spdxexp
 //@   requires[C05,C15] syncd(exp, orig)
 //@   modifies exp.index, exp.err
 //@   ensures[C03] okExp(exp)
+//@   ensures[C03] docProgress: result != nil ==> exp.index > old(exp.index)
 //@   ensures[C03] result == nil && !isErr(exp.err) ==> exp.index == old(exp.index)
 //@   ensures[C05,C15] !isErr(exp.err) ==> syncd(exp, orig) && exp.index >= old(exp.index)
 //@   ensures[C06,C07] result != nil ==> result.role == 1 && okTok(result)
@@ -342,6 +354,7 @@ package spdxexp
 //@   requires[C05,C15] syncd(exp, orig)
 //@   modifies exp.index, exp.err
 //@   ensures[C03] okExp(exp)
+//@   ensures[C03] lrefProgress: result != nil ==> exp.index > old(exp.index)
 //@   ensures[C03] result == nil && !isErr(exp.err) ==> exp.index == old(exp.index)
 //@   ensures[C05,C15] !isErr(exp.err) ==> syncd(exp, orig) && exp.index >= old(exp.index)
 //@   ensures[C06,C07] result != nil ==> result.role == 2 && okTok(result)
@@ -359,6 +372,7 @@ package spdxexp
 //@   modifies exp.index, exp.err, exp.expression, exp.removed
 //@   ensures[C03] okExp(exp)
 //@   ensures[C03] result != nil || isErr(exp.err)
+//@   ensures[C03] licProgress: result != nil && !isErr(exp.err) ==> len(exp.expression) - exp.index < old(len(exp.expression) - exp.index)
 //@   ensures[C06,C07] result != nil ==> okTok(result)
 //@   ensures[C05,C15] !isErr(exp.err) ==> rel(exp, orig) && exp.index > old(exp.index) - 9
 //@   assert[C15] call fmt.Sprintf#0: 0 <= arg2 && arg2 + len(arg1) <= len(orig) && orig[arg2:arg2 + len(arg1)] == arg1
@@ -381,6 +395,7 @@ package spdxexp
 //@   modifies exp.index, exp.expression, exp.removed
 //@   ensures[C03] okExp(exp)
 //@   ensures[C03] result == nil ==> exp.expression == old(exp.expression) && exp.index == old(exp.index) && exp.removed == old(exp.removed)
+//@   ensures[C03] normProgress: result != nil ==> (exp.expression == old(exp.expression) && exp.index >= old(exp.index)) || (len(exp.expression) == old(len(exp.expression)) - 8 && exp.index == old(exp.index) - 9 && len(license) >= 9)
 //@   ensures[C05,C15] result != nil ==> rel(exp, orig) && exp.index >= old(exp.index) - 9
 //@   ensures[C05,C08,C09] result != nil <==> validId(license, old(exp.index < len(exp.expression) && exp.expression[exp.index:exp.index + 1] == "+"))
 //@   ensures[C05,C08,C09] result != nil ==> result.role == normRole(license, old(npAt(exp))) && result.value == normVal(license, old(npAt(exp)))
@@ -633,6 +648,13 @@ package spdxexp
 //@ pred inNestP(R [][]*node, n int, x Tree) = innc(innerHeap(R), elems(R), n, fieldHeap("node", "tree"), x)
 //@ pred inNest(R [][]*node, x Tree) = inNestP(R, len(R), x)
 
+// Termination (C03).  Every loop has a variant (range loops: derived, bound - index; other loops: a decreases
+// clause), and every call that may lead back to its caller decreases a lexicographic measure of natural numbers:
+// the parser functions by (tokens left, rank of the function), the expansion functions by (size of the node's
+// tree, rank).  tsize is the number of nodes of the ghost tree; that it is positive is proved by structural induction.
+//@ def tsize(t Tree) int = ite(isTNode(t), 1 + tsize(tnL(t)) + tsize(tnR(t)), 1)
+//@ lemma[C03,induct] tsizePos: forall t Tree {tsize(t)} :: tsize(t) >= 1
+
 // ---------------------------------------------------------------------------
 // satisfies.go, extracts.go, helpers.go
 
@@ -768,6 +790,7 @@ package spdxexp
 
 //@ func (*node).expandOr
 //@   ghostparam x Tree
+//@   decreases tsize(n.tree), 0
 //@   requires n != nil && n.role == 0 && n.exp.conjunction == "or"
 //@   modifies nothing
 //@   ensures[C06,C10] inNest(result, x) <==> leafOf(n.tree, x)
@@ -777,6 +800,7 @@ package spdxexp
 
 //@ func expandOrTerm
 //@   ghostparam x Tree
+//@   decreases tsize(term.tree), 1
 //@   requires term != nil && okNest(result) && distinctNest(result)
 //@   modifies arr(result)
 //@   ensures[C06,C10] inNest(result0, x) <==> (old(inNest(result, x)) || leafOf(term.tree, x))
@@ -788,6 +812,7 @@ package spdxexp
 
 //@ func (*node).expandAnd
 //@   ghostparam x Tree
+//@   decreases tsize(n.tree), 0
 //@   requires n != nil && n.role == 0 && n.exp.conjunction == "and"
 //@   modifies nothing
 //@   ensures[C06,C10] inNest(result, x) <==> leafOf(n.tree, x)
@@ -797,6 +822,7 @@ package spdxexp
 
 //@ func expandAndTerm
 //@   ghostparam x Tree
+//@   decreases tsize(term.tree), 1
 //@   requires term != nil
 //@   modifies nothing
 //@   ensures[C06,C10] inNest(result, x) <==> leafOf(term.tree, x)
@@ -888,6 +914,7 @@ package spdxexp
 //@   ensures[C07,scoped] keptAreOld: forall j {nodes[j]} :: 0 <= j && j < len(nodes) ==> otc(old(elems(nodes)), 0, len(nodes), fieldHeap("node", "tree"), nodes[j].tree)
 //@   loop 0:
 //@     invariant[C03] 1 <= prev && prev <= curr && curr <= len(nodes) && allLeaves(nodes)
+//@     decreases len(nodes) - curr
 //@     invariant[C07,C01] (occursR(nodes, 0, prev, s) || occursR(nodes, curr, len(nodes), s)) <==> old(occursR(nodes, 0, len(nodes), s))
 //@     invariant[C07,C01] reconT(nodes[prev - 1].tree) == reconT(nodes[curr - 1].tree)
 //@     invariant[C07,C01] occursR(nodes, 0, len(nodes), s) ==> old(occursR(nodes, 0, len(nodes), s))
